@@ -395,7 +395,8 @@ def _match(S, N):
         except TypeError:
             pass
         n = N.edges.get(VAR, None)
-        if n:
+        # At the end of the term there is nothing left for a variable to match
+        if n and S.current is not END:
             restore_state_flag = False
             matches = matches + (S.term,)
             S.skip()
